@@ -451,6 +451,8 @@ def emit_vec(vf, exp, path, fr, ind, with_len):
         sp.ensures.append(('l2.%s.decode.over_capacity_rejected' % pid, {'C15', 'C02'}, 'len > %s ==> r is Err && r->Err_0 is CapacityExceeded' % fr.cap))
         sp.inserts.append(('before', 'let mut value = DataVec::new();', 0, 'let ghost verif_s0 = par.rest(); let ghost mut verif_k: int = 0;'))
         pre_bits = 'Seq::<bool>::empty()'
+    sp.inserts.append(('before', 'return Err(RtcmError::CapacityExceeded);', 0,
+                       'proof { assert(len > %s); }  // C15: a capacity error only when the count really exceeds the capacity' % fr.cap))
     sp.loops[0] = ('''    invariant
         value@.len() == verif_i0, len <= %(cap)s, verif_s0 == old(par).rest(),
         old(par).nz() ==> par.nz(),
@@ -510,6 +512,8 @@ def emit_str(vf, exp, path, fr, ind):
                        'assert forall|c: int| %s < c < crate::pow2(%d) && crate::bits_of_int(c, %d) == verif_s0.subrange(0, %d) implies c == len as int by { crate::lemma_bits_inj(c, len as int, %d); } }'
                        % (lbd, lbd, lbd, fr.cap, lbd, lbd, lbd, lbd)))
     pre_bits = 'crate::bits_of_int(len as int, %d)' % lbd
+    sp.inserts.append(('before', 'return Err(RtcmError::CapacityExceeded);', 0,
+                       'proof { assert(len as usize > %s); }  // C15: a capacity error only when the count really exceeds the capacity' % fr.cap))
     sp.loops[0] = ('''    invariant
         value@.len() == verif_i0, len as usize <= %(cap)s, verif_s0 == old(par).rest(),
         old(par).nz() ==> par.nz(),
